@@ -9,6 +9,7 @@ import (
 	"sort"
 	"strings"
 	"time"
+	"unicode/utf8"
 
 	"golang.org/x/tools/go/ssa"
 )
@@ -260,7 +261,11 @@ func (o *Outcome) Finish(verifDir string, seed int64) int {
 	for _, ob := range viol {
 		d := ob.Detail
 		if len(d) > 300 {
-			d = d[:300] + "… (full text in the replay file)"
+			cut := 300
+			for cut > 0 && !utf8.RuneStart(d[cut]) {
+				cut--
+			}
+			d = d[:cut] + "… (full text in the replay file)"
 		}
 		fmt.Printf("  FAIL %s %s [%s] %s — %s %s\n", ob.Rule, ob.Site, ob.Key, ob.Desc, d, cfgTag(ob.Config))
 	}
